@@ -9,9 +9,12 @@ for d in ${1:-*}/; do
   grep -q '"status": *"obsolete' "$id/meta.json" && { echo "$id obsolete (skipped)"; continue; }
   prop="$(sed -n 's/.*"breaks_property": *"\([^"]*\)".*/\1/p' "$id/meta.json")"
   out="$(ALT=1 "${VERIF_HOME:-/verif}/tools/try_mutant.sh" "${VERIF_HOME:-/verif}/seeded/$id/patch.diff" "$prop" 2>&1)"
+  # no "check ..." line: the trial itself did not run (e.g. two concurrent `git worktree add`): once more
+  echo "$out" | grep -q "^check \|DOES NOT APPLY" || { sleep 5; out="$(ALT=1 "${VERIF_HOME:-/verif}/tools/try_mutant.sh" "${VERIF_HOME:-/verif}/seeded/$id/patch.diff" "$prop" 2>&1)"; }
   keys="$(echo "$out" | sed -n 's/^ *key=//p' | sort -u | tr '\n' ' ')"
   if echo "$out" | grep -q "DOES NOT APPLY"; then echo "$id $prop no-apply"
   elif echo "$out" | grep -q "^VIOLATION property=$prop"; then echo "$id $prop detected keys: $keys"
   elif echo "$out" | grep -q "CHECK-BROKEN"; then echo "$id $prop BROKEN: $(echo "$out" | grep CHECK-BROKEN | head -1)"
+  elif ! echo "$out" | grep -q "^check "; then echo "$id $prop NO-RESULT: $(echo "$out" | tail -1)"
   else echo "$id $prop MISSED"; fi
 done
